@@ -58,6 +58,9 @@ def gen_cases(tier, seed):
         for i in range(8):
             cases.append({"kind": "flgbd", "bseed": rng.randrange(1 << 48), "pairs": "sample", "count": 160})
         add("corpus", 1)
+        add("recycle", 2, bsid=4, ccrc=False, sessions=3)
+        add("recycle", 1, bsid=4, ccrc=True, sessions=3)
+        add("recycle", 1, bsid=4, small_blocks=True, sessions=3)
     elif tier == "search":
         add("valid", 60, frames=3, sessions=8)
         add("mutated", 60, frames=4, sessions=4)
@@ -71,6 +74,9 @@ def gen_cases(tier, seed):
         for i in range(16):
             cases.append({"kind": "flgbd", "bseed": rng.randrange(1 << 48), "pairs": "sample", "count": 200})
         add("corpus", 1)
+        add("recycle", 6, bsid=4, sessions=4)
+        add("recycle", 2, bsid=4, small_blocks=True, sessions=4)
+        add("recycle", 1, bsid=5, sessions=3)
     else:
         add("valid", 300, frames=3, sessions=10)
         add("mutated", 300, frames=4, sessions=5)
@@ -84,6 +90,10 @@ def gen_cases(tier, seed):
         for lo in range(0, 256, 4):
             cases.append({"kind": "flgbd", "bseed": rng.randrange(1 << 48), "pairs": "range", "flg_lo": lo, "flg_hi": lo + 4})
         add("corpus", 1)
+        add("recycle", 24, bsid=4, sessions=4)
+        add("recycle", 8, bsid=4, small_blocks=True, sessions=4)
+        add("recycle", 6, bsid=5, sessions=4)
+        add("recycle", 2, bsid=4, sessions=5, one=True)
     return cases
 
 def worker_init(ctx):
@@ -350,6 +360,53 @@ def k_big(st, acc, rng, case):
                 v, len(r.get("out", b"")), len(content), len(r.get("out", b"")) == len(content)), detail(fr, p, r, dict_)); return
         acc.keys.add(hashlib.sha1(fr + repr(sorted(p.items())).encode()).hexdigest())
 
+def k_recycle(st, acc, rng, case):
+    """Directed: linked blocks, > maxBlockSize+128KB of output from uncompressed blocks received through SMALL
+    destination buffers (the decoder's history lives in tmpOutBuffer and has to be recycled: LZ4F_updateDict,
+    branch 'copy dst into tmp to complete dict'), then compressed blocks with far matches.  The content must not
+    depend on the output capacity."""
+    bsid = case.get("bsid", 4)
+    bs = F.BSIZE[bsid]
+    dict_ = None
+    if rng.random() < 0.2:
+        dict_ = gens.data(rng, "random", rng.choice([1000, 70000]))
+    fr, content, meta = F.gen_recycle_frame(rng, bsid=bsid, ccrc=case.get("ccrc"), dict_=dict_ or b"",
+                                            small_blocks=case.get("small_blocks", False))
+    acc.stats["recycle_bsid%d_%s" % (bsid, "ccrc" if meta["ccrc"] else "noccrc")] += 1
+    plans = [{"chunking": "whole", "cap": "large", "contig": False},
+             {"chunking": "kb", "cap": rng.choice(["fix3000", "fix4096", "fix1000"]), "contig": False},
+             {"chunking": "kb", "cap": "kb", "contig": rng.random() < 0.5},
+             {"chunking": "hint", "cap": rng.choice(["fix4096", "kb", "fix20000"]), "contig": True}]
+    if case.get("one"):
+        plans.append({"chunking": "kb", "cap": "fix1", "contig": False})
+    for p0 in plans[:case.get("sessions", 4)]:
+        p = dict(p0); p.update({"skip": False, "stable": False, "dstnull": 0.0})
+        s = F.Session(st)
+        if p["contig"]:
+            s.cd.set_contig(len(content) + 70000)
+        try:
+            r = F.drive(s, rng, fr, p["chunking"], p["cap"], skip=False, stable=False, dict_=dict_, bs=bs, hlen=meta["hlen"],
+                        max_calls=400000 if p["cap"] == "fix1" else 8000)
+        finally:
+            acc.evals += s.calls
+            s.free()
+        acc.stats["sessions"] += 1; acc.stats["calls"] += s.calls
+        acc.stats["cap_" + p["cap"]] += 1
+        for k, v in s.stages.items(): acc.stats["rest_" + k] += v
+        v = r["verdict"]
+        if v == "toolong": continue
+        det = detail(fr, p, r, dict_, {"meta": meta, "bseed": case["bseed"]})
+        if v in ("prop", "noprogress"):
+            acc.fail("prop_fail", str(r["what"]), det); return
+        if v != "complete" or r["out"] != content or r["pos"] != len(fr):
+            k = next((i for i, (a, b) in enumerate(zip(r.get("out", b""), content)) if a != b), None)
+            acc.fail("prop_fail", "valid frame (linked, long run of uncompressed blocks, far matches) decoded wrongly with capacity policy %s: %s %s; "
+                     "first wrong byte at %s of %d (a one-shot decode with a large buffer is correct: the result depends on the output capacity)" % (
+                         p["cap"], v, F.ERR.get(r.get("code"), r.get("code")), k, len(content)), det); return
+        if r.get("corr") and not any(f["status"] == "corr_fail" for f in acc.fails):
+            acc.fail("corr_fail", "model/code disagree: " + str(r["corr"]), det)
+        acc.keys.add(hashlib.sha1(fr + repr(sorted(p.items())).encode()).hexdigest())
+
 def lz4f_frame(st, rng, data, dict_id=0):
     lib = st["lib"]
     pr = Prefs()
@@ -509,5 +566,6 @@ def run_case(st, case):
     elif kind == "lz4f": k_lz4f(st, acc, rng, case)
     elif kind == "flgbd": k_flgbd(st, acc, rng, case)
     elif kind == "corpus": k_corpus(st, acc, rng, case)
+    elif kind == "recycle": k_recycle(st, acc, rng, case)
     else: raise ValueError(kind)
     return acc.results()
